@@ -1420,6 +1420,15 @@ func (v *Verifier) doSelect(st *State, s *ssa.Select) {
 		lo = -1
 	}
 	st.assume(And(Ge(idx, IntLit(lo)), Lt(idx, IntLit(int64(len(s.States))))))
+	for i, cs := range s.States {
+		// a case on a nil channel is never chosen
+		if ch := v.eval(st, cs.Chan); ch.cell == nil && len(ch.L) == 1 {
+			st.assume(Implies(Eq(idx, IntLit(int64(i))), Not(Eq(ch.L[0], IntLit(0)))))
+		}
+		if cs.Dir == types.SendOnly && cs.Send != nil {
+			v.escapeValue(st, v.eval(st, cs.Send))
+		}
+	}
 	v.setReg(st, s, res)
 }
 
